@@ -684,11 +684,13 @@ func (gen *Generator) GenerateCallBySymbol(sym *SexpSymbol, args []Sexp, orig Se
 		// to do a tail call
 		// pop off all the extra scopes
 		// then jump to beginning of function
-		for i := 0; i < gen.scopes; i++ {
+		// and the function scope itself, so that the next iteration
+		// gets a fresh one (closures made in this iteration keep theirs)
+		for i := 0; i < gen.scopes+1; i++ {
 			gen.AddInstruction(RemoveScopeInstr{})
 		}
 		gen.AddInstruction(PrepareCallInstr{sym, len(args)})
-		gen.AddInstruction(GotoInstr{1}) // goto 1 instead of 0 to avoid adding a new scope
+		gen.AddInstruction(GotoInstr{0}) // re-enter through AddFuncScope: one scope removed, one added
 	} else {
 		gen.AddInstruction(CallExprInstr{callee: sym, args: append([]Sexp(nil), args...)})
 	}
